@@ -1,43 +1,34 @@
 // C16 -- hand-written byte-offset token scanners of kolibrie/src/parser.rs (extracted verbatim, T3):
 // totality ("never crash") and slice faithfulness on EVERY well-formed UTF-8 input of a fixed length.
 
-/// UTF-8 well-formedness of a fixed-length buffer as byte comparisons (RFC 3629 table), no std validation loop
+/// The non-ASCII alphabet of the harnesses: one representative per (encoded length, Unicode class) pair, so that the
+/// class stubs below are EXACT on every character an input can contain (a counterexample then always replays natively;
+/// the first version used a parity proxy over all code points and produced non-reproducing counterexamples on mutants).
+///   2 bytes: é U+00E9 alphabetic, × U+00D7 neither, U+00A0 white space, ٣ U+0663 numeric
+///   3 bytes: 中 U+4E2D alphabetic, € U+20AC neither, U+2003 white space
+///   4 bytes: 𝐀 U+1D400 alphabetic, 😀 U+1F600 neither
+/// ASCII is unrestricted. Byte-level check (no std validation loop): implies UTF-8 well-formedness.
 fn wf<const L: usize>(b: &[u8; L]) -> bool {
-    let mut need = 0u8;
-    let mut lo = 0x80u8;
-    let mut hi = 0xBFu8;
     let mut i = 0;
     while i < L {
         let x = b[i];
-        if need == 0 {
-            if x < 0x80 {
-            } else if x >= 0xC2 && x <= 0xDF { need = 1; lo = 0x80; hi = 0xBF; }
-            else if x == 0xE0 { need = 2; lo = 0xA0; hi = 0xBF; }
-            else if (x >= 0xE1 && x <= 0xEC) || x == 0xEE || x == 0xEF { need = 2; lo = 0x80; hi = 0xBF; }
-            else if x == 0xED { need = 2; lo = 0x80; hi = 0x9F; }
-            else if x == 0xF0 { need = 3; lo = 0x90; hi = 0xBF; }
-            else if x >= 0xF1 && x <= 0xF3 { need = 3; lo = 0x80; hi = 0xBF; }
-            else if x == 0xF4 { need = 3; lo = 0x80; hi = 0x8F; }
-            else { return false; }
-        } else {
-            if x < lo || x > hi { return false; }
-            need -= 1; lo = 0x80; hi = 0xBF;
-        }
-        i += 1;
+        if x < 0x80 { i += 1; continue; }
+        let r = L - i;
+        if r >= 2 && ((x == 0xC3 && (b[i + 1] == 0xA9 || b[i + 1] == 0x97)) || (x == 0xC2 && b[i + 1] == 0xA0) || (x == 0xD9 && b[i + 1] == 0xA3)) { i += 2; continue; }
+        if r >= 3 && ((x == 0xE4 && b[i + 1] == 0xB8 && b[i + 2] == 0xAD) || (x == 0xE2 && b[i + 1] == 0x82 && b[i + 2] == 0xAC) || (x == 0xE2 && b[i + 1] == 0x80 && b[i + 2] == 0x83)) { i += 3; continue; }
+        if r >= 4 && x == 0xF0 && ((b[i + 1] == 0x9D && b[i + 2] == 0x90 && b[i + 3] == 0x80) || (b[i + 1] == 0x9F && b[i + 2] == 0x98 && b[i + 3] == 0x80)) { i += 4; continue; }
+        return false;
     }
-    need == 0
-}
-
-// Unicode class proxies (see DESIGN.md 2.3): exact for ASCII; for non-ASCII a fixed function of the code
-// point that yields both classes for every encoded length. Offset arithmetic only depends on (len_utf8, class).
-fn stub_alnum(c: char) -> bool {
-    if (c as u32) < 128 { let b = c as u8; (b >= b'0' && b <= b'9') || (b >= b'a' && b <= b'z') || (b >= b'A' && b <= b'Z') } else { (c as u32) & 1 == 1 }
+    true
 }
 fn stub_alpha(c: char) -> bool {
-    if (c as u32) < 128 { let b = c as u8; (b >= b'a' && b <= b'z') || (b >= b'A' && b <= b'Z') } else { (c as u32) & 1 == 1 }
+    if (c as u32) < 128 { let b = c as u8; (b >= b'a' && b <= b'z') || (b >= b'A' && b <= b'Z') } else { c == '\u{E9}' || c == '\u{4E2D}' || c == '\u{1D400}' }
+}
+fn stub_alnum(c: char) -> bool {
+    if (c as u32) < 128 { let b = c as u8; (b >= b'0' && b <= b'9') || (b >= b'a' && b <= b'z') || (b >= b'A' && b <= b'Z') } else { stub_alpha(c) || c == '\u{663}' }
 }
 fn stub_ws(c: char) -> bool {
-    if (c as u32) < 128 { let b = c as u8; b == b' ' || (b >= 9 && b <= 13) } else { (c as u32) & 3 == 2 }
+    if (c as u32) < 128 { let b = c as u8; b == b' ' || (b >= 9 && b <= 13) } else { c == '\u{A0}' || c == '\u{2003}' }
 }
 
 /// faithfulness, as pointer facts about the returned slices (no second scan, no memcmp):
@@ -156,6 +147,18 @@ macro_rules! skipws {
             // only skippable material was skipped: an input starting with an ordinary ASCII character is untouched
             let first = buf[0];
             if !(first == b' ' || (first >= 9 && first <= 13) || first == b'#' || first >= 0x80) { assert!(r.len() == $len); }
+            // reference model (SPARQL 19.4: a comment runs from '#' to the end of the line, CR or LF, and is white space):
+            // the result starts at the first character that is neither white space nor inside a comment
+            let mut start = $len;
+            let mut in_comment = false;
+            for (idx, c) in s.char_indices() {
+                if in_comment { if c == '\r' || c == '\n' { in_comment = false; } continue; }
+                if stub_ws(c) { continue; }
+                if c == '#' { in_comment = true; continue; }
+                start = idx;
+                break;
+            }
+            assert!(r.len() == $len - start, "exactly white space and comments (up to CR or LF) are skipped");
             kani::cover!(r.len() == 1 && buf[0] == b'#', "comment skipped up to its newline");
             kani::cover!(r.len() == $len, "nothing to skip");
         }
@@ -193,3 +196,63 @@ wsindep!(ws_independence_iri_l3, 3, 7, sparql_iri);
 wsindep!(ws_independence_blank_node_l4, 4, 8, sparql_blank_node);
 wsindep!(ws_independence_numeric_literal_l3, 3, 7, sparql_numeric_literal);
 wsindep!(ws_independence_prefixed_name_l3, 3, 7, sparql_prefixed_name);
+
+// ---- helper scanners called with byte offsets by the token scanners (direct harnesses: the token-level harnesses stop
+// at L = 4 bytes, too short for an escape followed by a multi-byte character)
+/// `\uXXXX` / `\UXXXXXXXX` length: never panics (the fixed-width slice must not cut a character), and an accepted
+/// escape is exactly that many ASCII hex digits
+macro_rules! uesc {
+    ($name:ident, $len:expr, $unw:expr, $kind:expr) => {
+        #[kani::proof]
+        #[kani::unwind($unw)]
+        fn $name() {
+            let buf: [u8; $len] = kani::any();
+            kani::assume(buf[0] == b'\\' && buf[1] == $kind);
+            kani::assume(wf::<$len>(&buf));
+            let s = unsafe { std::str::from_utf8_unchecked(&buf) };
+            let r = sparql_unicode_escape_len(s);
+            if let Some(end) = r {
+                assert!(end == if $kind == b'u' { 6 } else { 10 } && end <= $len);
+                let mut i = 2;
+                while i < end { assert!(buf[i].is_ascii_hexdigit(), "an accepted escape consists of hex digits"); i += 1; }
+            }
+            kani::cover!(r.is_some(), "an escape is accepted");
+            kani::cover!(r.is_none() && buf[5] >= 0x80, "a multi-byte character inside the digit field is rejected");
+        }
+    };
+}
+uesc!(unicode_escape_len_u_l7, 7, 12, b'u');
+uesc!(unicode_escape_len_u_l8, 8, 12, b'u');
+uesc!(unicode_escape_len_cap_u_l11, 11, 14, b'U');
+
+/// PN_PREFIX validation: total, and the offending part it reports is a non-empty suffix of the candidate prefix
+macro_rules! pnprefix {
+    ($name:ident, $len:expr, $unw:expr) => {
+        #[kani::proof]
+        #[kani::unwind($unw)]
+        #[kani::stub(char::is_alphanumeric, stub_alnum)]
+        #[kani::stub(char::is_alphabetic, stub_alpha)]
+        #[kani::stub(char::is_whitespace, stub_ws)]
+        fn $name() {
+            let buf: [u8; $len] = kani::any();
+            kani::assume(wf::<$len>(&buf));
+            let s = unsafe { std::str::from_utf8_unchecked(&buf) };
+            let r = sparql_invalid_pn_prefix(s);
+            if let Some(off) = r {
+                assert!(off.len() >= 1 && off.len() <= $len);
+                assert!(off.as_ptr() as usize + off.len() == s.as_ptr() as usize + $len, "the offending part is a suffix of the prefix");
+            }
+            kani::cover!(r.is_none(), "a valid prefix");
+            kani::cover!(r.is_some() && buf[0] < 0x80 && buf[1] >= 0x80, "offending character after a multi-byte character");
+        }
+    };
+}
+pnprefix!(invalid_pn_prefix_l3, 3, 7);
+pnprefix!(invalid_pn_prefix_l4, 4, 8);
+
+// ---- quoted literals (single / triple quoted, escapes, optional @lang / ^^datatype suffix): the token starts with a
+// quote character and contains its closing partner
+fn count_byte(t: &str, x: u8) -> usize { let b = t.as_bytes(); let mut n = 0; let mut i = 0; while i < b.len() { if b[i] == x { n += 1; } i += 1; } n }
+scan!(quoted_literal_l2, 2, 8, sparql_quoted_literal, |tok, rest| { assert!((b0(tok) == b'"' || b0(tok) == b'\'') && count_byte(tok, b0(tok)) >= 2); });
+scan!(quoted_literal_l3, 3, 9, sparql_quoted_literal, |tok, rest| { assert!((b0(tok) == b'"' || b0(tok) == b'\'') && count_byte(tok, b0(tok)) >= 2); });
+scan!(quoted_literal_l4, 4, 10, sparql_quoted_literal, |tok, rest| { assert!((b0(tok) == b'"' || b0(tok) == b'\'') && count_byte(tok, b0(tok)) >= 2); });
